@@ -27,8 +27,8 @@ def run(ctx):
     lib.coq_make(["theories/Search.vo", "theories/Wp.vo"])
     n_prog = ctx.pick(40, 400)
     depth = ctx.pick(3, 5)
-    progs = list(gen.corpus())
-    while len(progs) < n_prog:
+    progs = lib.replay_programs(ctx) or list(gen.corpus())
+    while len(progs) < n_prog and not ctx.replay:
         g = gen.G(ctx.rng, max_depth=ctx.rng.choice([1, 2]))
         p = g.program()
         progs.append((p, g.goals(2), "+".join(sorted(g.features))))
@@ -63,7 +63,7 @@ def run(ctx):
                 continue
             term = (f"[check_types {fp_c} {T_c}; check_system cm0 {fp_c} {T_c} {ms_c} {A_c}; "
                     f"check_init_vals cm0 (fp_init {fp_c}) {ms_c} {v_c}]")
-            cases.append({"text": text, "goal": gen.goal_text(m), "flat": flat, "gr": gr, "term": term, "fp": fp_c, "T": T_c,
+            cases.append({"text": text, "pj": P.to_json(p), "gj": [P.to_json(m)], "goal": gen.goal_text(m), "flat": flat, "gr": gr, "term": term, "fp": fp_c, "T": T_c,
                           "ms": ms_c, "A": A_c, "v": v_c, "n_ms": len(ms), "flat_text": r.get("flat_text"),
                           "G": r.get("original_loop_guard")})
     files = []
@@ -106,7 +106,7 @@ def run(ctx):
         o = o + "\n" + oa
         wit = re.search(r"=\s*Some\s*\(\s*(\d+)\s*,\s*(\d+)\s*\)\s*:\s*option \(nat \* nat\)", o) if okc else None
         iw = re.search(r"=\s*Some\s*(\d+)\s*:\s*option nat", o) if okc else None
-        base = {"program_text": c["text"], "goal": c["goal"], "flat_program": c["flat_text"], "monomials": c["gr"]["monomials"],
+        base = {"program_text": c["text"], "prog_json": c["pj"], "goals_json": c["gj"], "goal": c["goal"], "flat_program": c["flat_text"], "monomials": c["gr"]["monomials"],
                 "matrix": c["gr"]["matrix"], "vector": c["gr"]["vector"], "validators": bl, "why": c["why"]}
         if bl and not bl[0] and drop_ok and bl[2]:
             # types rejected at the known call site: the system cannot be validated on top of unsound types
